@@ -118,15 +118,17 @@ theorem checkFees_exact (r : RegState) (k : RegKind) (hbuy : 1 ≤ r.params.feeB
 decorator on the unchanged input state (the decorators before it have no effect on the state) -/
 theorem ante_runs_fee_decorator (k : RegKind) (mode : Mode) (s s' : State) (tx : Tx) (hk : tx.hasKind k = true)
     (h : ante Facts.anteOrder mode s tx = .ok s') :
-    (mode = .check → checkFees (s.reg k) k tx = .ok ()) ∧ checkPayerFunds s (s.reg k) tx = .ok () ∧
+    (mode ≠ .deliver → checkFees (s.reg k) k tx = .ok ()) ∧ checkPayerFunds s (s.reg k) tx = .ok () ∧
     checkMaxSlots (s.reg k) k tx = .ok () := by
   have horder : Facts.anteOrder = ["SetUpContext", "ExtensionOptions", "ValidateBasic", "TxTimeoutHeight", "ValidateMemo",
     "ConsumeGasForTxSize", "CorrectWrkChainFee", "CorrectBeaconFee", "CheckLockedUnd", "DeductFee", "SetPubKey",
     "ValidateSigCount", "SigGasConsume", "SigVerification", "IncrementSequence", "RedundantRelay"] := by decide
   rw [horder] at h
-  simp only [ante, List.foldlM_cons, anteStepM, anteStep, bind_eq_ok, pure_eq_ok, stepValidateBasic, Except.ok.injEq,
+  simp only [ante, List.foldlM_cons, anteStepM, anteStep, bind_eq_ok, pure_eq_ok, Except.ok.injEq,
     exists_eq_left'] at h
-  obtain ⟨s3, ⟨_, _, _, _, rfl⟩, s7, h7, s8, h8, _⟩ := h
+  obtain ⟨s3, h3, s7, h7, s8, h8, _⟩ := h
+  have e3 := stepValidateBasicR_id mode _ _ tx h3
+  subst e3
   have e7 := feeDecorator_id .wrk mode _ _ tx h7
   subst e7
   cases k with
@@ -134,12 +136,12 @@ theorem ante_runs_fee_decorator (k : RegKind) (mode : Mode) (s s' : State) (tx :
     simp only [feeDecorator, hk, Bool.not_true, Bool.false_eq_true, if_false, bind_eq_ok, pure_eq_ok] at h7
     obtain ⟨u1, h1, u2, h2, u3, h3, _⟩ := h7
     refine ⟨fun hm => ?_, h2, h3⟩
-    subst hm; simpa using h1
+    simpa [hm] using h1
   | bcn =>
     simp only [feeDecorator, hk, Bool.not_true, Bool.false_eq_true, if_false, bind_eq_ok, pure_eq_ok] at h8
     obtain ⟨u1, h1, u2, h2, u3, h3, _⟩ := h8
     refine ⟨fun hm => ?_, h2, h3⟩
-    subst hm; simpa using h1
+    simpa [hm] using h1
 
 /-- … in particular the fee of an admitted WRKChain/BEACON transaction is a valid coin set -/
 theorem ante_fee_valid (mode : Mode) (s s' : State) (tx : Tx) (hk : (tx.hasKind .wrk || tx.hasKind .bcn) = true)
